@@ -199,3 +199,17 @@ package cluster
 //@   at call dialTLSConn assert [dials-the-peer-asked-for] arg0 == addr && arg1 == timeout && arg2 == pool.tlsConfig
 //@   noeffect tlsConn).alive dialTLSConn
 //@   assigns nothing
+
+// ---- C19: the receive loop of one TLS connection. It keeps reading frames for as long as the connection delivers
+// them - it ends only on a read error, on shutdown, or after handing a stream connection over - and passes every
+// packet read, unchanged, to memberlist's packet channel; it puts no deadline of its own on the connection.
+//@ func (*TLSTransport).handle
+//@   props C19
+//@   abstract
+//@   nosafe
+//@   at call chan.send assert [every-frame-read-is-handed-on-as-it-is] called("tlsConn).read") && ret1("tlsConn).read") == nil
+//@             && (ret("tlsConn).read") != nil ? (arg0 == ret("tlsConn).read") && arg1 == t.packetCh) : (arg1 == t.streamCh))
+//@   ensures [ends-only-on-error-shutdown-or-stream-handover] called("tlsConn).read") && (ret1("tlsConn).read") != nil || ret("select") == 0 || ret("tlsConn).read") == nil)
+//@   ensures [no-deadline-of-its-own] !called("SetReadDeadline") && !called("SetDeadline")
+//@   loop 1 invariant !called("SetReadDeadline") && !called("SetDeadline")
+//@   noeffect tlsConn).read rcvTLSConn
